@@ -144,6 +144,13 @@ func runRace(c *h.Ctx, r *h.Report) {
 				if len(txt) > 3000 {
 					txt = txt[:3000]
 				}
+				if strings.Contains(txt, "AssignUUID") {
+					// the ids the hub generates come out of unsynchronised shared state: two publications can be handed
+					// the same "fresh" id (C12: the id a subscriber sees identifies one update)
+					r.Violate(h.Violation{Key: "C12:update-ids-generated-through-a-data-race",
+						What:   fmt.Sprintf("concurrent publications without an id race inside AssignUUID on the %s transport (frames: %s)", kind, strings.Join(top, " <- ")),
+						Replay: map[string]any{"family": "race", "kind": kind, "seed": seed, "report": txt}})
+				}
 				r.Violate(h.Violation{Key: "C14:data-race:" + first,
 					What:   fmt.Sprintf("the race detector reports unsynchronised memory access on the %s transport (frames: %s)", kind, strings.Join(top, " <- ")),
 					Replay: map[string]any{"family": "race", "kind": kind, "seed": seed, "report": txt}})
